@@ -69,3 +69,657 @@ Lemma tail_len a b : (b <> 0 -> a - b * (a / b) < b)%nat.
 Proof.
   intros Hb. pose proof (Nat.div_mod a b Hb). pose proof (Nat.mod_upper_bound a b Hb). lia.
 Qed.
+
+(* ------------------------------------------------------------------------------------------ *)
+(* spifhash_jenkins = lookup2 hash() *)
+(* congruence normalisation: everything to `_ mod W32`, mods pushed outwards *)
+Lemma add32_mod a b : add32 a b = (a + b) mod W32.
+Proof. apply wrap32_mod. Qed.
+Lemma shl32_mod a n : 0 <= n -> shl32 a n = (a * 2 ^ n) mod W32.
+Proof. intros. unfold shl32. now rewrite wrap32_mod, Z.shiftl_mul_pow2. Qed.
+
+Definition u32 (x : Z) : Prop := 0 <= x < W32.
+Ltac pow_lits :=
+  change (2 ^ 0) with 1 in *; change (2 ^ 8) with 256 in *; change (2 ^ 16) with 65536 in *;
+  change (2 ^ 24) with 16777216 in *.
+Ltac norm32 :=
+  rewrite ?add32_mod; rewrite ?shl32_mod by lia;
+  change M32 with W32; unfold le_word; cbn [fold_right]; pow_lits; unfold u32, W32 in *;
+  Z.div_mod_to_equations; lia.
+
+(* one block of spifhash_jenkins *)
+Lemma jenkins_load_block b0 b1 b2 b3 b4 b5 b6 b7 b8 b9 b10 b11 T a b c :
+  load_block (Some b0 :: Some b1 :: Some b2 :: Some b3 :: Some b4 :: Some b5 :: Some b6 :: Some b7 ::
+              Some b8 :: Some b9 :: Some b10 :: Some b11 :: T) jenkins_loads (a, b, c) =
+  Ok ((a + le_word [b0; b1; b2; b3]) mod M32, (b + le_word [b4; b5; b6; b7]) mod M32,
+      (c + le_word [b8; b9; b10; b11]) mod M32).
+Proof.
+  cbv [load_block jenkins_loads lane_sum rd rdn Z.ltb Z.compare Z.to_nat Pos.to_nat Pos.iter_op Nat.add nth_error bind addr setr getr].
+  f_equal. f_equal; [f_equal|]; norm32.
+Qed.
+
+(* ---- values stay 32-bit ---- *)
+Definition in32 (s : Z * Z * Z) : Prop := let '(a, b, c) := s in u32 a /\ u32 b /\ u32 c.
+
+Lemma mod_u32 x : u32 (x mod W32).
+Proof. apply Z.mod_pos_bound. reflexivity. Qed.
+
+Lemma testbit_high a n : u32 a -> 32 <= n -> Z.testbit a n = false.
+Proof.
+  unfold u32. intros Ha Hn. destruct (Z.eq_dec a 0) as [->|Hnz]; [apply Z.bits_0|].
+  apply Z.bits_above_log2; [lia|].
+  assert (Z.log2 a < 32) by (apply Z.log2_lt_pow2; [lia | exact (proj2 Ha)]). lia.
+Qed.
+
+Lemma lxor_u32 a b : u32 a -> u32 b -> u32 (Z.lxor a b).
+Proof.
+  intros Ha Hb.
+  assert (E : Z.lxor a b = Z.lxor a b mod 2 ^ 32).
+  { apply Z.bits_inj'. intros n Hn. destruct (Z.lt_ge_cases n 32) as [Hlt|Hge].
+    - now rewrite Z.mod_pow2_bits_low.
+    - rewrite Z.mod_pow2_bits_high by lia. rewrite Z.lxor_spec, !testbit_high by assumption. reflexivity. }
+  rewrite E. apply Z.mod_pos_bound. reflexivity.
+Qed.
+
+Lemma div_pow2_u32 z k : 0 <= k -> u32 z -> u32 (z / 2 ^ k).
+Proof.
+  unfold u32. intros Hk Hz. assert (0 < 2 ^ k) by (apply Z.pow_pos_nonneg; lia). split.
+  - apply Z.div_pos; lia.
+  - apply Z.div_lt_upper_bound; nia.
+Qed.
+
+Lemma rowR_u32 x y z k : 0 <= k -> u32 z -> u32 (rowR x y z k).
+Proof. intros. apply lxor_u32; [apply mod_u32 | now apply div_pow2_u32]. Qed.
+Lemma rowL_u32 x y z k : u32 (rowL x y z k).
+Proof. apply lxor_u32; apply mod_u32. Qed.
+
+Lemma lookup2_mix_in32 s : in32 s -> in32 (lookup2_mix s).
+Proof.
+  destruct s as [[a b] c]. intros (Ha & Hb & Hc). unfold lookup2_mix.
+  cbv [mixA mixB mixC in32].
+  repeat match goal with
+         | |- _ /\ _ => split
+         | |- u32 (rowR _ _ _ _) => apply rowR_u32; [lia|]
+         | |- u32 (rowL _ _ _ _) => apply rowL_u32
+         | |- u32 _ => assumption
+         end.
+Qed.
+
+Ltac compute_model :=
+  cbv [sub firstn skipn length bytes map app Z.of_nat Pos.of_succ_nat Pos.succ switch_from jenkins_tail jenkinsLE_tail
+       Z.eqb Pos.eqb run_tail load_block jenkins_loads jenkinsLE_loads lane_sum
+       rd rdn Z.ltb Z.compare Z.to_nat Pos.to_nat Pos.iter_op Nat.add nth_error bind addr setr getr].
+
+Lemma jenkins_tail_spec t rest L a b c :
+  (length t < 12)%nat -> u32 a -> u32 b ->
+  run_tail (bytes t ++ rest)
+           (switch_from (fun e => let '(n, _, _, _) := e in n) (Z.of_nat (length t)) jenkins_tail)
+           (addr RC L (a, b, c)) =
+  Ok ((a + le_word (sub t 0 4)) mod M32, (b + le_word (sub t 4 4)) mod M32,
+      (c + (L + 256 * le_word (sub t 8 3))) mod M32).
+Proof.
+  intros H Ha Hb. unfold u32 in *.
+  do 12 (destruct t as [|? t]; [ compute_model; f_equal; f_equal; [f_equal|]; norm32 | ]).
+  simpl in H; lia.
+Qed.
+
+(* from here on the two mix functions are only used through mix_is_lookup2_mix and
+   lookup2_mix_in32: unfolding them on symbolic registers is exponential (nine rows, each
+   mentioning the previous values three times) *)
+Global Opaque lookup2_mix mix.
+
+Lemma lookup2_block_in32 s blk : in32 (lookup2_block s blk).
+Proof.
+  destruct s as [[a b] c]. unfold lookup2_block. apply lookup2_mix_in32.
+  change M32 with W32. cbv [in32]. repeat split; apply mod_u32.
+Qed.
+
+Lemma fold_blocks_in32 blks s : in32 s -> in32 (fold_left lookup2_block blks s).
+Proof.
+  revert s; induction blks as [|blk blks IH]; intros s Hs; cbn [fold_left]; [assumption|].
+  apply IH, lookup2_block_in32.
+Qed.
+
+Lemma sub32_small len d : 0 <= d <= len -> len < W32 -> sub32 len d = len - d.
+Proof. intros. unfold sub32. rewrite wrap32_mod. apply Z.mod_small. lia. Qed.
+
+Lemma fold_left_cons {A B} (f : A -> B -> A) x l a : fold_left f (x :: l) a = fold_left f l (f a x).
+Proof. reflexivity. Qed.
+
+Lemma lookup2_block_explicit a b c b0 b1 b2 b3 b4 b5 b6 b7 b8 b9 b10 b11 :
+  lookup2_block (a, b, c) [b0; b1; b2; b3; b4; b5; b6; b7; b8; b9; b10; b11] =
+  lookup2_mix ((a + le_word [b0; b1; b2; b3]) mod M32, (b + le_word [b4; b5; b6; b7]) mod M32,
+               (c + le_word [b8; b9; b10; b11]) mod M32).
+Proof. unfold lookup2_block, sub. cbn [firstn skipn]. reflexivity. Qed.
+
+Lemma jenkins_loop_spec : forall blks t rest fuel s len,
+  Forall (fun b => length b = 12%nat) blks ->
+  (length t < 12)%nat -> (length blks < fuel)%nat ->
+  len = 12 * Z.of_nat (length blks) + Z.of_nat (length t) -> len < W32 ->
+  byte_loop jenkins_test jenkins_loads jenkins_advance jenkins_dec fuel
+            (bytes (concat blks ++ t) ++ rest) len s
+  = Ok (bytes t ++ rest, Z.of_nat (length t), fold_left lookup2_block blks s).
+Proof.
+  induction blks as [|blk blks IH]; intros t rest fuel s len Hall Ht Hfuel Hlen Hw.
+  - destruct fuel as [|f]; [simpl in Hfuel; lia|]. simpl in Hlen.
+    cbn [byte_loop concat app fold_left]. unfold jenkins_test.
+    destruct (len >=? 12) eqn:E; [apply Z.geb_le in E; lia|]. subst len. reflexivity.
+  - pose proof (Forall_inv Hall) as Hb; pose proof (Forall_inv_tail Hall) as Hall'. cbn beta in Hb.
+    destruct fuel as [|f]; [simpl in Hfuel; lia|].
+    do 12 (destruct blk as [|? blk]; [simpl in Hb; discriminate|]).
+    destruct blk; [|simpl in Hb; discriminate].
+    cbn [length] in Hlen, Hfuel.
+    cbn [concat app bytes map byte_loop]. unfold jenkins_test.
+    destruct (len >=? 12) eqn:E; [|rewrite Z.geb_leb in E; apply Z.leb_gt in E; lia].
+    destruct s as [[a b] c]. rewrite jenkins_load_block. cbn [bind].
+    change (Z.to_nat jenkins_advance) with 12%nat. cbn [skipn].
+    rewrite mix_is_lookup2_mix. unfold jenkins_dec. rewrite sub32_small by lia.
+    change (map Some (concat blks ++ t)) with (bytes (concat blks ++ t)).
+    rewrite (IH t rest f _ (len - 12)) by (auto; lia).
+    rewrite fold_left_cons, lookup2_block_explicit. reflexivity.
+Qed.
+
+Lemma bind_Ok {A B} (a : A) (k : A -> res B) : bind (Ok a) k = k a.
+Proof. reflexivity. Qed.
+Lemma getr_RC_third s : getr RC s = third s.
+Proof. destruct s as [[a b] c]. reflexivity. Qed.
+
+Lemma concat_length_blocks {A} m (blks : list (list A)) :
+  Forall (fun b => length b = m) blks -> length (concat blks) = (m * length blks)%nat.
+Proof.
+  induction 1 as [|x l Hx Hl IH]; cbn [concat length]; [lia|]. rewrite app_length, IH, Hx. lia.
+Qed.
+
+(* the reference with the key already split *)
+Definition lookup2_split (golden : Z) (blks : list (list Z)) (t : list Z) (L initval : Z) : Z :=
+  let '(a, b, c) := fold_left lookup2_block blks (golden, golden, initval) in
+  third (lookup2_mix ((a + le_word (sub t 0 4)) mod M32,
+                      (b + le_word (sub t 4 4)) mod M32,
+                      (c + (L + 256 * le_word (sub t 8 3))) mod M32)).
+
+Lemma u32_seed : u32 builtin_random_seed.
+Proof. unfold u32, W32, builtin_random_seed. lia. Qed.
+
+Lemma jenkins_blocks_tail blks t rest seed :
+  Forall (fun b => length b = 12%nat) blks -> (length t < 12)%nat ->
+  Z.of_nat (length (concat blks ++ t)) < W32 -> u32 seed ->
+  jenkins (bytes (concat blks ++ t) ++ rest) (Z.of_nat (length (concat blks ++ t))) seed =
+  Ok (lookup2_split builtin_random_seed blks t (Z.of_nat (length (concat blks ++ t))) seed).
+Proof.
+  intros Hall Ht Hlen Hseed. unfold jenkins, lookup2_split.
+  set (L := Z.of_nat (length (concat blks ++ t))) in *.
+  assert (HL : L = 12 * Z.of_nat (length blks) + Z.of_nat (length t)).
+  { unfold L. rewrite app_length, (concat_length_blocks 12) by assumption. lia. }
+  rewrite (jenkins_loop_spec blks t rest (fuel_for L) _ L Hall Ht); [| unfold fuel_for; lia | exact HL | exact Hlen].
+  rewrite bind_Ok. cbv beta iota.
+  pose proof (fold_blocks_in32 blks (builtin_random_seed, builtin_random_seed, seed)) as Hin.
+  destruct (fold_left lookup2_block blks (builtin_random_seed, builtin_random_seed, seed)) as [[a b] c].
+  destruct Hin as (Ha & Hb & _). { repeat split; try apply u32_seed; apply Hseed. }
+  rewrite jenkins_tail_spec by assumption. rewrite bind_Ok.
+  rewrite mix_is_lookup2_mix, getr_RC_third. reflexivity.
+Qed.
+
+Theorem jenkins_equals_lookup2 k rest seed :
+  Z.of_nat (length k) < W32 -> u32 seed ->
+  jenkins (bytes k ++ rest) (Z.of_nat (length k)) seed = Ok (lookup2 builtin_random_seed k seed).
+Proof.
+  intros Hlen Hseed.
+  set (nb := (length k / 12)%nat).
+  assert (Hle : (12 * nb <= length k)%nat) by (apply div_mul_le; lia).
+  pose proof (chunks_concat 12 nb k Hle) as E.
+  assert (R : lookup2 builtin_random_seed k seed =
+              lookup2_split builtin_random_seed (chunks 12 nb k) (skipn (12 * nb) k) (Z.of_nat (length k)) seed)
+    by reflexivity.
+  rewrite R. clear R.
+  assert (G : forall k', k' = k ->
+              jenkins (bytes k' ++ rest) (Z.of_nat (length k')) seed =
+              Ok (lookup2_split builtin_random_seed (chunks 12 nb k) (skipn (12 * nb) k)
+                                (Z.of_nat (length k')) seed)).
+  { intros k' Ek'. rewrite <- E in Ek'. subst k'. apply jenkins_blocks_tail; auto.
+    - apply chunks_all_length; exact Hle.
+    - rewrite skipn_length. apply tail_len. lia.
+    - rewrite E. exact Hlen. }
+  apply G. reflexivity.
+Qed.
+
+(* ------------------------------------------------------------------------------------------ *)
+(* spifhash_jenkinsLE: the aligned word loop computes what the byte loop computes, on every
+   buffer (faults included: both read cells 0..11 in the same order) *)
+Lemma load_words_eq_block key s :
+  load_words key 1 jenkinsLE_aligned_loads s = load_block key jenkinsLE_loads s.
+Proof.
+  destruct s as [[a b] c].
+  cbv [load_words load_block jenkinsLE_aligned_loads jenkinsLE_loads lane_sum rd_word bind].
+  change (1 * 0) with 0. change (1 * 4) with 4. change (1 * 8) with 8.
+  change (0 + 1) with 1. change (0 + 2) with 2. change (0 + 3) with 3.
+  change (4 + 1) with 5. change (4 + 2) with 6. change (4 + 3) with 7.
+  change (8 + 1) with 9. change (8 + 2) with 10. change (8 + 3) with 11.
+  destruct (rd key 0) as [v0|]; [|reflexivity]. destruct (rd key 1) as [v1|]; [|reflexivity].
+  destruct (rd key 2) as [v2|]; [|reflexivity]. destruct (rd key 3) as [v3|]; [|reflexivity].
+  destruct (rd key 4) as [v4|]; [|reflexivity]. destruct (rd key 5) as [v5|]; [|reflexivity].
+  destruct (rd key 6) as [v6|]; [|reflexivity]. destruct (rd key 7) as [v7|]; [|reflexivity].
+  destruct (rd key 8) as [v8|]; [|reflexivity]. destruct (rd key 9) as [v9|]; [|reflexivity].
+  destruct (rd key 10) as [v10|]; [|reflexivity]. destruct (rd key 11) as [v11|]; [|reflexivity].
+  cbv [addr setr getr]. f_equal. f_equal; [f_equal|]; norm32.
+Qed.
+
+Lemma word_loop_eq_byte_loop fuel : forall key len s,
+  word_loop jenkinsLE_aligned_test 1 jenkinsLE_aligned_loads jenkinsLE_aligned_advance
+            jenkinsLE_aligned_dec fuel key len s =
+  byte_loop jenkinsLE_test jenkinsLE_loads jenkinsLE_advance jenkinsLE_dec fuel key len s.
+Proof.
+  induction fuel as [|f IH]; intros key len s; [reflexivity|].
+  cbn [word_loop byte_loop].
+  change jenkinsLE_aligned_test with jenkinsLE_test.
+  destruct (len >=? jenkinsLE_test); [|reflexivity].
+  rewrite load_words_eq_block.
+  destruct (load_block key jenkinsLE_loads s) as [s1|]; [|reflexivity].
+  rewrite !bind_Ok.
+  change (1 * jenkinsLE_aligned_advance) with jenkinsLE_advance.
+  change jenkinsLE_aligned_dec with jenkinsLE_dec.
+  apply IH.
+Qed.
+
+Theorem jenkinsLE_equals_jenkins : forall addr_ key length seed,
+  jenkinsLE addr_ key length seed = jenkins key length seed.
+Proof.
+  intros. unfold jenkinsLE, jenkins.
+  destruct (Z.land (wrap32 addr_) jenkinsLE_align_mask =? 0); [rewrite word_loop_eq_byte_loop|];
+    change jenkinsLE_test with jenkins_test; change jenkinsLE_loads with jenkins_loads;
+    change jenkinsLE_advance with jenkins_advance; change jenkinsLE_dec with jenkins_dec;
+    change jenkinsLE_tail with jenkins_tail; reflexivity.
+Qed.
+
+(* ------------------------------------------------------------------------------------------ *)
+(* ---- spifhash_jenkins32 = hash2() on the word array whose memory image the key is ---- *)
+Lemma le_bytes_congr a w :
+  add32 a (w mod 256 + (w / 256) mod 256 * 256 + (w / 65536) mod 256 * 65536 + (w / 16777216) mod 256 * 16777216)
+  = (a + w) mod M32.
+Proof.
+  rewrite add32_mod. change M32 with W32. unfold W32. Z.div_mod_to_equations. lia.
+Qed.
+
+Lemma load_words_12 b0 b1 b2 b3 b4 b5 b6 b7 b8 b9 b10 b11 T a b c :
+  load_words (Some b0 :: Some b1 :: Some b2 :: Some b3 :: Some b4 :: Some b5 :: Some b6 :: Some b7 ::
+              Some b8 :: Some b9 :: Some b10 :: Some b11 :: T) 4 jenkins32_loads (a, b, c) =
+  Ok (add32 a (b0 + b1 * 256 + b2 * 65536 + b3 * 16777216),
+      add32 b (b4 + b5 * 256 + b6 * 65536 + b7 * 16777216),
+      add32 c (b8 + b9 * 256 + b10 * 65536 + b11 * 16777216)).
+Proof.
+  cbv [load_words jenkins32_loads rd_word].
+  change (4 * 0) with 0. change (4 * 1) with 4. change (4 * 2) with 8.
+  change (0 + 1) with 1. change (0 + 2) with 2. change (0 + 3) with 3.
+  change (4 + 1) with 5. change (4 + 2) with 6. change (4 + 3) with 7.
+  change (8 + 1) with 9. change (8 + 2) with 10. change (8 + 3) with 11.
+  cbv [rd rdn Z.ltb Z.compare Z.to_nat Pos.to_nat Pos.iter_op Nat.add nth_error bind addr setr getr].
+  reflexivity.
+Qed.
+
+Definition mem_words (ws : list Z) : buf := bytes (flat_map le_bytes ws).
+
+Lemma mem_words_cons w ws rest :
+  mem_words (w :: ws) ++ rest =
+  Some (w mod 256) :: Some ((w / 256) mod 256) :: Some ((w / 65536) mod 256) ::
+  Some ((w / 16777216) mod 256) :: (mem_words ws ++ rest).
+Proof. reflexivity. Qed.
+
+Lemma hash2_block_explicit a b c w0 w1 w2 :
+  hash2_block (a, b, c) [w0; w1; w2] =
+  lookup2_mix ((a + w0) mod M32, (b + w1) mod M32, (c + w2) mod M32).
+Proof. reflexivity. Qed.
+
+Lemma hash2_block_in32 s blk : in32 (hash2_block s blk).
+Proof.
+  destruct s as [[a b] c]. unfold hash2_block. apply lookup2_mix_in32.
+  change M32 with W32. cbv [in32]. repeat split; apply mod_u32.
+Qed.
+Lemma fold_hash2_in32 blks s : in32 s -> in32 (fold_left hash2_block blks s).
+Proof.
+  revert s; induction blks as [|blk blks IH]; intros s Hs; [exact Hs|].
+  rewrite fold_left_cons. apply IH, hash2_block_in32.
+Qed.
+
+Lemma jenkins32_loop_spec : forall wblks wt rest fuel s len,
+  Forall (fun b => length b = 3%nat) wblks ->
+  (length wt < 3)%nat -> (length wblks < fuel)%nat ->
+  len = 3 * Z.of_nat (length wblks) + Z.of_nat (length wt) -> len < W32 ->
+  word_loop jenkins32_test 4 jenkins32_loads jenkins32_advance jenkins32_dec fuel
+            (mem_words (concat wblks ++ wt) ++ rest) len s
+  = Ok (mem_words wt ++ rest, Z.of_nat (length wt), fold_left hash2_block wblks s).
+Proof.
+  induction wblks as [|blk blks IH]; intros t rest fuel s len Hall Ht Hfuel Hlen Hw.
+  - destruct fuel as [|f]; [simpl in Hfuel; lia|]. simpl in Hlen.
+    cbn [word_loop concat app fold_left]. unfold jenkins32_test.
+    destruct (len >=? 3) eqn:E; [apply Z.geb_le in E; lia|]. subst len. reflexivity.
+  - pose proof (Forall_inv Hall) as Hb; pose proof (Forall_inv_tail Hall) as Hall'. cbn beta in Hb.
+    destruct fuel as [|f]; [simpl in Hfuel; lia|].
+    do 3 (destruct blk as [|? blk]; [simpl in Hb; discriminate|]).
+    destruct blk; [|simpl in Hb; discriminate].
+    cbn [length] in Hlen, Hfuel.
+    cbn [concat app word_loop]. rewrite !mem_words_cons. unfold jenkins32_test.
+    destruct (len >=? 3) eqn:E; [|rewrite Z.geb_leb in E; apply Z.leb_gt in E; lia].
+    destruct s as [[a b] c]. rewrite load_words_12, !le_bytes_congr. rewrite bind_Ok.
+    change (Z.to_nat (4 * jenkins32_advance)) with 12%nat. cbn [skipn].
+    rewrite mix_is_lookup2_mix. unfold jenkins32_dec. rewrite sub32_small by lia.
+    rewrite (IH t rest f _ (len - 3)) by (auto; lia).
+    rewrite fold_left_cons, hash2_block_explicit. reflexivity.
+Qed.
+
+Lemma mod_small_u32 x : u32 x -> x = (x + 0) mod M32.
+Proof. unfold u32. intros H. change M32 with W32. rewrite Z.add_0_r, Z.mod_small; auto. Qed.
+
+Lemma jenkins32_tail_spec wt rest L a b c :
+  (length wt < 3)%nat -> u32 a -> u32 b ->
+  run_tail_words (mem_words wt ++ rest)
+                 (switch_from (fun e => let '(n, _, _) := e in n) (Z.of_nat (length wt)) jenkins32_tail)
+                 (addr RC L (a, b, c)) =
+  Ok ((a + nth 0 wt 0) mod M32, (b + nth 1 wt 0) mod M32, (c + L) mod M32).
+Proof.
+  intros H Ha Hb.
+  destruct wt as [|w0 wt]; [|destruct wt as [|w1 wt]; [|destruct wt as [|w2 wt]; [|simpl in H; lia]]];
+    rewrite ?mem_words_cons;
+    cbv [length Z.of_nat Pos.of_succ_nat Pos.succ switch_from jenkins32_tail Z.eqb Pos.eqb run_tail_words rd_word nth];
+    change (4 * 0) with 0; change (4 * 1) with 4;
+    change (0 + 1) with 1; change (0 + 2) with 2; change (0 + 3) with 3;
+    change (4 + 1) with 5; change (4 + 2) with 6; change (4 + 3) with 7;
+    cbv [rd rdn Z.ltb Z.compare Z.to_nat Pos.to_nat Pos.iter_op Nat.add nth_error bind addr setr getr];
+    rewrite ?le_bytes_congr, add32_mod; change W32 with M32;
+    rewrite <- ?(mod_small_u32 a Ha), <- ?(mod_small_u32 b Hb); reflexivity.
+Qed.
+
+Definition hash2_split (golden : Z) (blks : list (list Z)) (t : list Z) (L initval : Z) : Z :=
+  let '(a, b, c) := fold_left hash2_block blks (golden, golden, initval) in
+  third (lookup2_mix ((a + nth 0 t 0) mod M32, (b + nth 1 t 0) mod M32, (c + L) mod M32)).
+
+Lemma jenkins32_blocks_tail blks t rest seed :
+  Forall (fun b => length b = 3%nat) blks -> (length t < 3)%nat ->
+  Z.of_nat (length (concat blks ++ t)) < W32 -> u32 seed ->
+  jenkins32 (mem_words (concat blks ++ t) ++ rest) (Z.of_nat (length (concat blks ++ t))) seed =
+  Ok (hash2_split builtin_random_seed blks t (Z.of_nat (length (concat blks ++ t))) seed).
+Proof.
+  intros Hall Ht Hlen Hseed. unfold jenkins32, hash2_split.
+  set (L := Z.of_nat (length (concat blks ++ t))) in *.
+  assert (HL : L = 3 * Z.of_nat (length blks) + Z.of_nat (length t)).
+  { unfold L. rewrite app_length, (concat_length_blocks 3) by assumption. lia. }
+  rewrite (jenkins32_loop_spec blks t rest (fuel_for L) _ L Hall Ht); [| unfold fuel_for; lia | exact HL | exact Hlen].
+  rewrite bind_Ok. cbv beta iota.
+  pose proof (fold_hash2_in32 blks (builtin_random_seed, builtin_random_seed, seed)) as Hin.
+  destruct (fold_left hash2_block blks (builtin_random_seed, builtin_random_seed, seed)) as [[a b] c].
+  destruct Hin as (Ha & Hb & _). { repeat split; try apply u32_seed; apply Hseed. }
+  rewrite jenkins32_tail_spec by assumption. rewrite bind_Ok.
+  rewrite mix_is_lookup2_mix, getr_RC_third. reflexivity.
+Qed.
+
+Theorem jenkins32_equals_hash2 ws rest seed :
+  Z.of_nat (length ws) < W32 -> u32 seed ->
+  jenkins32 (mem_words ws ++ rest) (Z.of_nat (length ws)) seed = Ok (hash2 builtin_random_seed ws seed).
+Proof.
+  intros Hlen Hseed.
+  set (nb := (length ws / 3)%nat).
+  assert (Hle : (3 * nb <= length ws)%nat) by (apply div_mul_le; lia).
+  pose proof (chunks_concat 3 nb ws Hle) as E.
+  assert (R : hash2 builtin_random_seed ws seed =
+              hash2_split builtin_random_seed (chunks 3 nb ws) (skipn (3 * nb) ws) (Z.of_nat (length ws)) seed)
+    by reflexivity.
+  rewrite R. clear R.
+  assert (G : forall k', k' = ws ->
+              jenkins32 (mem_words k' ++ rest) (Z.of_nat (length k')) seed =
+              Ok (hash2_split builtin_random_seed (chunks 3 nb ws) (skipn (3 * nb) ws)
+                              (Z.of_nat (length k')) seed)).
+  { intros k' Ek'. rewrite <- E in Ek'. subst k'. apply jenkins32_blocks_tail; auto.
+    - apply chunks_all_length; exact Hle.
+    - rewrite skipn_length. apply tail_len. lia.
+    - rewrite E. exact Hlen. }
+  apply G. reflexivity.
+Qed.
+
+(* ------------------------------------------------------------------------------------------ *)
+(* ---- the one-loop hashes: the loops are folds over exactly the first `len` cells ---- *)
+Lemma rd_mid pre x k rest : rd (bytes (pre ++ x :: k) ++ rest) (Z.of_nat (length pre)) = Ok x.
+Proof.
+  unfold rd. destruct (Z.of_nat (length pre) <? 0) eqn:E; [apply Z.ltb_lt in E; lia|].
+  rewrite Nat2Z.id. rewrite rdn_app_l by (rewrite bytes_length, app_length; simpl; lia).
+  apply rdn_bytes. rewrite nth_error_app2 by lia. now rewrite Nat.sub_diag.
+Qed.
+
+Lemma index_loop_fold step : forall k pre rest h,
+  index_loop step (length k) (bytes (pre ++ k) ++ rest) (Z.of_nat (length pre)) h = Ok (fold_left step k h).
+Proof.
+  induction k as [|x k IH]; intros pre rest h; [reflexivity|].
+  cbn [length index_loop]. rewrite rd_mid, bind_Ok.
+  replace (Z.of_nat (length pre) + 1) with (Z.of_nat (length (pre ++ [x]))) by (rewrite app_length; simpl; lia).
+  replace (pre ++ x :: k) with ((pre ++ [x]) ++ k) by (now rewrite <- app_assoc).
+  rewrite IH. reflexivity.
+Qed.
+
+Lemma ptr_loop_fold step : forall k rest h,
+  ptr_loop step (length k) (bytes k ++ rest) h = Ok (fold_left step k h).
+Proof.
+  induction k as [|x k IH]; intros rest h; [reflexivity|].
+  cbn [length ptr_loop bytes map app]. change (rd (Some x :: map Some k ++ rest) 0) with (@Ok Z x).
+  rewrite bind_Ok. cbn [skipn]. apply IH.
+Qed.
+
+Lemma fold_left_ext_inv {A B} (P : A -> Prop) (Q : B -> Prop) (f g : A -> B -> A) :
+  (forall a b, P a -> Q b -> f a b = g a b) -> (forall a b, P a -> Q b -> P (g a b)) ->
+  forall l a, P a -> Forall Q l -> fold_left f l a = fold_left g l a /\ P (fold_left g l a).
+Proof.
+  intros Hfg Hp. induction l as [|x l IH]; intros a Ha Hl; [split; [reflexivity | exact Ha]|].
+  pose proof (Forall_inv Hl) as Hx. pose proof (Forall_inv_tail Hl) as Hl'.
+  rewrite !fold_left_cons. rewrite Hfg by assumption. apply IH; auto.
+Qed.
+
+(* rotating *)
+Lemma shl_shr_disjoint h : u32 h -> Z.land ((h * 2 ^ 4) mod 2 ^ 32) (h / 2 ^ 28) = 0.
+Proof.
+  intros Hh. apply Z.bits_inj'. intros n Hn. rewrite Z.land_spec, Z.bits_0.
+  destruct (Z.lt_ge_cases n 4) as [Hlt|Hge].
+  - rewrite Z.mod_pow2_bits_low by lia. rewrite Z.mul_pow2_bits_low by lia. reflexivity.
+  - rewrite Z.div_pow2_bits by lia. rewrite (testbit_high h (n + 28)) by (auto; lia).
+    apply andb_false_r.
+Qed.
+
+Lemma rot_step_spec h b : u32 h -> rot_step h b = Z.lxor (rotl32 h 4) b.
+Proof.
+  intros Hh. unfold rot_step, rotl32. cbv [rotating_shifts]. unfold xor32, shr32. rewrite shl32_mod by lia.
+  rewrite Z.shiftr_div_pow2 by lia. change (32 - 4) with 28. change M32 with (2 ^ 32). change W32 with (2 ^ 32).
+  rewrite <- (Z.add_nocarry_lxor ((h * 2 ^ 4) mod 2 ^ 32) (h / 2 ^ 28)) by (apply shl_shr_disjoint; exact Hh). reflexivity.
+Qed.
+
+Lemma rot_final_spec h : rot_final h = Z.lxor (Z.lxor h (h / 2 ^ 10)) (h / 2 ^ 20).
+Proof. unfold rot_final. cbv [rotating_shifts]. unfold xor32, shr32. now rewrite !Z.shiftr_div_pow2 by lia. Qed.
+
+Lemma rotl32_u32 h : u32 h -> u32 (rotl32 h 4).
+Proof.
+  intros Hh. unfold rotl32. change (32 - 4) with 28. change M32 with (2 ^ 32).
+  rewrite Z.add_nocarry_lxor by (apply shl_shr_disjoint; exact Hh).
+  apply lxor_u32; [apply mod_u32 | apply div_pow2_u32; [lia | exact Hh]].
+Qed.
+
+Lemma byte_u32 b : is_byte b -> u32 b.
+Proof. unfold is_byte, u32, W32. lia. Qed.
+
+Lemma nz_seed_u32 d seed : u32 d -> u32 seed -> u32 (nz_seed d seed).
+Proof. unfold nz_seed. destruct (seed =? 0); auto. Qed.
+
+Lemma libast_seed_eq : builtin_random_seed = libast_seed.
+Proof. reflexivity. Qed.
+Lemma fnv_init_eq : fnv_init = fnv_offset_basis.
+Proof. reflexivity. Qed.
+Lemma fnv_prime_eq : fnv_prime = fnv_32_prime.
+Proof. reflexivity. Qed.
+
+Lemma rotating_fold k rest seed :
+  rotating (bytes k ++ rest) (Z.of_nat (length k)) seed =
+  Ok (rot_final (fold_left rot_step k (nz_seed builtin_random_seed seed))).
+Proof.
+  unfold rotating. rewrite Nat2Z.id.
+  rewrite (index_loop_fold rot_step k [] rest). rewrite bind_Ok. reflexivity.
+Qed.
+
+Theorem rotating_def k rest seed :
+  Forall is_byte k -> u32 seed ->
+  rotating (bytes k ++ rest) (Z.of_nat (length k)) seed = Ok (spec_rotating k seed).
+Proof.
+  intros Hk Hs. rewrite rotating_fold, rot_final_spec. unfold spec_rotating, rotating_ref.
+  rewrite libast_seed_eq.
+  destruct (fold_left_ext_inv u32 is_byte rot_step (fun h b => Z.lxor (rotl32 h 4) b)) with
+      (l := k) (a := nz_seed libast_seed seed) as [E _]; auto.
+  - intros a b Ha _. apply rot_step_spec; exact Ha.
+  - intros a b Ha Hb. apply lxor_u32; [apply rotl32_u32; exact Ha | apply byte_u32; exact Hb].
+  - apply nz_seed_u32; [rewrite <- libast_seed_eq; apply u32_seed | exact Hs].
+  - rewrite E. reflexivity.
+Qed.
+
+(* one-at-a-time *)
+Lemma oaat_step_spec h b :
+  oaat_step h b = (let h1 := ((h + b) * 1025) mod M32 in Z.lxor h1 (h1 / 64)).
+Proof.
+  unfold oaat_step. cbv [oaat_shifts]. cbv zeta. unfold xor32, shr32.
+  rewrite Z.shiftr_div_pow2 by lia. change (2 ^ 6) with 64.
+  assert (E : add32 (add32 h b) (shl32 (add32 h b) 10) = ((h + b) * 1025) mod M32).
+  { rewrite !add32_mod, shl32_mod by lia. change (2 ^ 10) with 1024. change M32 with W32. unfold W32.
+    Z.div_mod_to_equations. lia. }
+  rewrite E. reflexivity.
+Qed.
+
+Lemma oaat_final_spec h :
+  oaat_final h = (let h := (h * 9) mod M32 in let h := Z.lxor h (h / 2048) in (h * 32769) mod M32).
+Proof.
+  unfold oaat_final. cbv [oaat_shifts]. cbv zeta. unfold xor32, shr32.
+  rewrite Z.shiftr_div_pow2 by lia. change (2 ^ 11) with 2048.
+  assert (E1 : add32 h (shl32 h 3) = (h * 9) mod M32).
+  { rewrite !add32_mod, shl32_mod by lia. change (2 ^ 3) with 8. change M32 with W32. unfold W32.
+    Z.div_mod_to_equations. lia. }
+  rewrite E1.
+  set (x := Z.lxor ((h * 9) mod M32) ((h * 9) mod M32 / 2048)).
+  rewrite !add32_mod, shl32_mod by lia. change (2 ^ 15) with 32768. change M32 with W32. unfold W32.
+  clearbody x. Z.div_mod_to_equations. lia.
+Qed.
+
+Lemma oaat_fold k rest seed :
+  one_at_a_time (bytes k ++ rest) (Z.of_nat (length k)) seed =
+  Ok (oaat_final (fold_left oaat_step k (nz_seed builtin_random_seed seed))).
+Proof.
+  unfold one_at_a_time. rewrite Nat2Z.id.
+  rewrite (index_loop_fold oaat_step k [] rest). rewrite bind_Ok. reflexivity.
+Qed.
+
+Lemma fold_left_ext {A B} (f g : A -> B -> A) : (forall a b, f a b = g a b) ->
+  forall l a, fold_left f l a = fold_left g l a.
+Proof. intros E. induction l as [|x l IH]; intros a; [reflexivity|]. rewrite !fold_left_cons, E. apply IH. Qed.
+
+Theorem oaat_def k rest seed :
+  one_at_a_time (bytes k ++ rest) (Z.of_nat (length k)) seed = Ok (spec_oaat k seed).
+Proof.
+  rewrite oaat_fold, oaat_final_spec. unfold spec_oaat, oaat_ref. rewrite libast_seed_eq.
+  rewrite (fold_left_ext oaat_step _ oaat_step_spec). reflexivity.
+Qed.
+
+(* FNV *)
+Theorem fnv_shift_add_is_multiply h : fnv_mul h = (h * fnv_prime) mod W32.
+Proof.
+  unfold fnv_mul. cbv [fnv_shifts fold_left fnv_prime]. rewrite !add32_mod, !shl32_mod by lia.
+  change (2 ^ 1) with 2. change (2 ^ 4) with 16. change (2 ^ 7) with 128. change (2 ^ 8) with 256.
+  change (2 ^ 24) with 16777216. unfold W32. Z.div_mod_to_equations. lia.
+Qed.
+
+Lemma fnv_fold k rest seed :
+  fnv (bytes k ++ rest) (Z.of_nat (length k)) seed = Ok (fold_left fnv_step k (nz_seed fnv_init seed)).
+Proof. unfold fnv. rewrite Nat2Z.id. apply ptr_loop_fold. Qed.
+
+Theorem fnv_def k rest seed :
+  fnv (bytes k ++ rest) (Z.of_nat (length k)) seed = Ok (spec_fnv k seed).
+Proof.
+  rewrite fnv_fold. unfold spec_fnv, fnv1a_ref. rewrite fnv_init_eq.
+  rewrite (fold_left_ext fnv_step (fun h b => (Z.lxor h b * fnv_32_prime) mod M32)); [reflexivity|].
+  intros a b. unfold fnv_step, xor32. rewrite fnv_shift_add_is_multiply, fnv_prime_eq. reflexivity.
+Qed.
+
+(* ------------------------------------------------------------------------------------------ *)
+(* ---- the byte view of spifhash_jenkins32: a key of 4n bytes is the memory image of its words ---- *)
+Lemma le_bytes_le_word b0 b1 b2 b3 :
+  is_byte b0 -> is_byte b1 -> is_byte b2 -> is_byte b3 ->
+  le_bytes (le_word [b0; b1; b2; b3]) = [b0; b1; b2; b3].
+Proof.
+  unfold is_byte, le_bytes, le_word. cbn [fold_right]. intros H0 H1 H2 H3.
+  repeat f_equal; Z.div_mod_to_equations; lia.
+Qed.
+
+Lemma mem_words_of_bytes : forall n k,
+  length k = (4 * n)%nat -> Forall is_byte k ->
+  flat_map le_bytes (map le_word (chunks 4 n k)) = k.
+Proof.
+  induction n as [|n IH]; intros k Hl Hb.
+  - destruct k; [reflexivity | simpl in Hl; lia].
+  - do 4 (destruct k as [|? k]; [simpl in Hl; lia|]).
+    repeat match goal with H : Forall is_byte (_ :: _) |- _ =>
+      let Hx := fresh "Hx" in pose proof (Forall_inv H) as Hx; apply Forall_inv_tail in H end.
+    cbn [chunks firstn skipn map flat_map]. rewrite le_bytes_le_word by assumption.
+    cbn [app]. rewrite IH; [reflexivity | simpl in Hl; lia | assumption].
+Qed.
+
+Theorem jenkins32_on_bytes k n rest seed :
+  length k = (4 * n)%nat -> Forall is_byte k -> Z.of_nat n < W32 -> u32 seed ->
+  jenkins32 (bytes k ++ rest) (Z.of_nat n) seed = Ok (spec_jenkins32 (words_of_bytes k) seed).
+Proof.
+  intros Hl Hb Hn Hs. unfold words_of_bytes, spec_jenkins32.
+  replace (length k / 4)%nat with n by (rewrite Hl, Nat.mul_comm, Nat.div_mul; lia).
+  rewrite <- libast_seed_eq.
+  assert (Hlen : length (map le_word (chunks 4 n k)) = n) by (rewrite map_length; apply chunks_length).
+  rewrite <- (jenkins32_equals_hash2 (map le_word (chunks 4 n k)) rest seed) by (rewrite ?Hlen; assumption).
+  unfold mem_words. rewrite mem_words_of_bytes by assumption. rewrite Hlen. reflexivity.
+Qed.
+
+(* ---- exactly `length` key cells are read: Ok on an exactly sized key, and whatever follows the
+   key (further cells, uninitialised cells, nothing) does not matter ---- *)
+Theorem hashes_read_exactly k rest seed addr_ :
+  Z.of_nat (length k) < W32 -> u32 seed ->
+  let n := Z.of_nat (length k) in
+  (is_ok (jenkins (bytes k) n seed) = true /\ jenkins (bytes k ++ rest) n seed = jenkins (bytes k) n seed) /\
+  (is_ok (jenkinsLE addr_ (bytes k) n seed) = true /\
+   jenkinsLE addr_ (bytes k ++ rest) n seed = jenkinsLE addr_ (bytes k) n seed) /\
+  (is_ok (rotating (bytes k) n seed) = true /\ rotating (bytes k ++ rest) n seed = rotating (bytes k) n seed) /\
+  (is_ok (one_at_a_time (bytes k) n seed) = true /\
+   one_at_a_time (bytes k ++ rest) n seed = one_at_a_time (bytes k) n seed) /\
+  (is_ok (fnv (bytes k) n seed) = true /\ fnv (bytes k ++ rest) n seed = fnv (bytes k) n seed).
+Proof.
+  intros Hlen Hs n. subst n.
+  pose proof (jenkins_equals_lookup2 k [] seed Hlen Hs) as J0. rewrite app_nil_r in J0.
+  pose proof (rotating_fold k [] seed) as R0. rewrite app_nil_r in R0.
+  pose proof (oaat_fold k [] seed) as O0. rewrite app_nil_r in O0.
+  pose proof (fnv_fold k [] seed) as F0. rewrite app_nil_r in F0.
+  rewrite !jenkinsLE_equals_jenkins.
+  rewrite (jenkins_equals_lookup2 k rest seed Hlen Hs), (rotating_fold k rest), (oaat_fold k rest), (fnv_fold k rest).
+  rewrite J0, R0, O0, F0. cbn [is_ok]. repeat split.
+Qed.
+
+Theorem jenkins32_reads_exactly ws rest seed :
+  Z.of_nat (length ws) < W32 -> u32 seed ->
+  let n := Z.of_nat (length ws) in
+  is_ok (jenkins32 (mem_words ws) n seed) = true /\
+  jenkins32 (mem_words ws ++ rest) n seed = jenkins32 (mem_words ws) n seed.
+Proof.
+  intros Hlen Hs n. subst n.
+  pose proof (jenkins32_equals_hash2 ws [] seed Hlen Hs) as J0. rewrite app_nil_r in J0.
+  rewrite (jenkins32_equals_hash2 ws rest seed Hlen Hs), J0. split; reflexivity.
+Qed.
+
+(* ---- a zero seed is replaced ---- *)
+Theorem seed_zero_replaced key len :
+  rotating key len 0 = rotating key len builtin_random_seed /\
+  one_at_a_time key len 0 = one_at_a_time key len builtin_random_seed /\
+  fnv key len 0 = fnv key len fnv_init.
+Proof.
+  unfold rotating, one_at_a_time, fnv.
+  change (0 =? 0) with true. change (builtin_random_seed =? 0) with false. change (fnv_init =? 0) with false.
+  cbv iota. repeat split.
+Qed.
+
+(* ---- the constants stored hash values depend on, and the source shape ---- *)
+Theorem constants_are_published :
+  builtin_random_seed = 4146181709 /\ fnv_init = 2166136261 /\ fnv_prime = 16777619.
+Proof. repeat split. Qed.
+
+Theorem source_shape_recognised : hashgen_errors = [].
+Proof. reflexivity. Qed.
